@@ -95,6 +95,12 @@ func (s *Server) AlphabetIndex() int {
 }
 
 func (s *Server) voteForFSChainValidator(ctx context.Context, validators keys.PublicKeys, trigger *util.Uint256) error {
+	if !s.IsAlphabet() {
+		s.log.Info("ignore validator vote: node is not an alphabet member")
+
+		return nil
+	}
+
 	index := s.InnerRingIndex()
 	if index >= len(s.contracts.alphabet) {
 		s.log.Info("ignore validator vote: node not in alphabet range")
